@@ -253,6 +253,270 @@ theorem props_groups_merge (pre mid post : List VItem) (g1 g2 : List (Bytes × P
   simp only [propsOf, List.filterMap_append, List.filterMap_cons, List.flatten_append, List.flatten_cons] at hm ⊢
   simp [hm]
 
+/-! ### full order-independence -/
+
+def VItem.isSingle (it : VItem) : Bool := it.kind?.isSome
+
+/-- the repeatable part of a list of items, added to a variant -/
+def addRep (v : Variant) (its : List VItem) : Variant :=
+  { v with serialize := v.serialize ++ serializesOf its, props := v.props ++ propsOf its }
+
+theorem addRep_apply_single (v : Variant) (x : VItem) (rest : List VItem) (hx : x.isSingle = true) :
+    addRep (applyItem v x) rest = applyItem (addRep v rest) x := by
+  cases x <;> simp_all [VItem.isSingle, VItem.kind?, addRep, applyItem]
+
+/-- the fold splits into the repeatable items (kept in order) and the single-use items -/
+theorem fold_split (its : List VItem) (v : Variant) :
+    its.foldl applyItem v = (its.filter VItem.isSingle).foldl applyItem (addRep v its) := by
+  induction its generalizing v with
+  | nil => simp [addRep, serializesOf, propsOf]
+  | cons x rest ih =>
+    by_cases hx : x.isSingle = true
+    · simp only [List.foldl_cons, List.filter_cons, hx, ↓reduceIte]
+      rw [ih, addRep_apply_single v x rest hx]
+      have : addRep v (x :: rest) = addRep v rest := by
+        cases x <;> simp_all [VItem.isSingle, VItem.kind?, addRep, serializesOf, propsOf, List.filterMap_cons]
+      rw [this]
+    · simp only [List.foldl_cons, List.filter_cons, hx, Bool.false_eq_true, ↓reduceIte]
+      rw [ih]
+      congr 1
+      cases x <;> simp_all [VItem.isSingle, VItem.kind?, addRep, applyItem, serializesOf, propsOf, List.filterMap_cons, List.append_assoc]
+
+theorem kind_inj_of_nodup : ∀ (l : List VItem), (kindsOf l).Nodup → ∀ x ∈ l, ∀ y ∈ l, x.kind? = y.kind? → x.kind?.isSome = true → x = y
+  | [], _, _, hx, _, _, _, _ => by simp at hx
+  | a :: l, hn, x, hx, y, hy, hk, hs => by
+    cases ha : a.kind? with
+    | none =>
+      have hn' : (kindsOf l).Nodup := by simpa [kindsOf, List.filterMap_cons, ha] using hn
+      have hxa : x ≠ a := by intro h; rw [h, ha] at hs; simp at hs
+      have hya : y ≠ a := by intro h; rw [h, ha] at hk; rw [hk] at hs; simp at hs
+      have hx' : x ∈ l := by simpa [hxa] using hx
+      have hy' : y ∈ l := by simpa [hya] using hy
+      exact kind_inj_of_nodup l hn' x hx' y hy' hk hs
+    | some k =>
+      have hn2 : (k :: kindsOf l).Nodup := by simpa [kindsOf, List.filterMap_cons, ha] using hn
+      obtain ⟨hk_notin, hn'⟩ := List.nodup_cons.mp hn2
+      have memk : ∀ z ∈ l, z.kind? = some k → False := by
+        intro z hz hzk
+        apply hk_notin
+        simp only [kindsOf, List.mem_filterMap]
+        exact ⟨z, hz, hzk⟩
+      rcases List.mem_cons.mp hx with rfl | hx'
+      · rcases List.mem_cons.mp hy with rfl | hy'
+        · rfl
+        · exact absurd (by rw [← hk, ha]) (memk y hy')
+      · rcases List.mem_cons.mp hy with rfl | hy'
+        · exact absurd (by rw [hk, ha]) (memk x hx')
+        · exact kind_inj_of_nodup l hn' x hx' y hy' hk hs
+
+theorem kindsOf_filter_single (its : List VItem) : kindsOf (its.filter VItem.isSingle) = kindsOf its := by
+  induction its with
+  | nil => rfl
+  | cons x rest ih =>
+    cases hk : x.kind? <;> simp [kindsOf, List.filter_cons, VItem.isSingle, hk, List.filterMap_cons] at ih ⊢ <;> exact ih
+
+/-- **The order of the items is irrelevant**, except for the relative order of the `serialize` literals and of the
+    `props` entries: two variants whose item sequences are permutations of each other with the same serialize and props
+    subsequences collect to the same properties (or both fail). -/
+theorem collect_perm (r r' : RawVariant) (hi : r.ident = r'.ident) (hf : r.fields = r'.fields) (hd : r.discr = r'.discr)
+    (hdoc : r.docs = r'.docs) (hp : r.attrs.flatten.Perm r'.attrs.flatten)
+    (hs : serializesOf r.attrs.flatten = serializesOf r'.attrs.flatten)
+    (hpr : propsOf r.attrs.flatten = propsOf r'.attrs.flatten) :
+    (collectVariant r).toOption = (collectVariant r').toOption := by
+  have hkp : (kindsOf r.attrs.flatten).Perm (kindsOf r'.attrs.flatten) := List.Perm.filterMap _ hp
+  by_cases hn : (kindsOf r.attrs.flatten).Nodup
+  · have hn' : (kindsOf r'.attrs.flatten).Nodup := hkp.nodup_iff.mp hn
+    rw [collectVariant_ok r hn, collectVariant_ok r' hn']
+    simp only [Except.toOption]
+    rw [fold_split r.attrs.flatten, fold_split r'.attrs.flatten]
+    have hb : addRep (baseVariant r) r.attrs.flatten = addRep (baseVariant r') r'.attrs.flatten := by
+      simp [addRep, baseVariant, hi, hf, hd, hdoc, hs, hpr]
+    rw [hb]
+    have hfp : (r.attrs.flatten.filter VItem.isSingle).Perm (r'.attrs.flatten.filter VItem.isSingle) := hp.filter _
+    refine congrArg some (List.Perm.foldl_eq' hfp ?_ _)
+    intro x hx y hy z
+    by_cases hxy : x = y
+    · rw [hxy]
+    · have hxs : x.isSingle = true := (List.mem_filter.mp hx).2
+      have hys : y.isSingle = true := (List.mem_filter.mp hy).2
+      have hkn : x.kind? ≠ y.kind? := by
+        intro hk
+        exact hxy (kind_inj_of_nodup _ (by rw [kindsOf_filter_single]; exact hn) x hx y hy hk hxs)
+      apply applyItem_comm
+      cases x <;> cases y <;> simp_all [independent, VItem.kind?, VItem.isSingle]
+  · have hn' : ¬ (kindsOf r'.attrs.flatten).Nodup := fun h => hn (hkp.nodup_iff.mpr h)
+    obtain ⟨k, hk⟩ := (collectVariant_error_iff r).mpr hn
+    obtain ⟨k', hk'⟩ := (collectVariant_error_iff r').mpr hn'
+    rw [hk, hk']; rfl
+
+/-! ### enum level -/
+
+def ekindsOf (its : List EItem) : List EKind := its.map EItem.kind
+
+theorem collectEStep_pos (st : ECollectState) (it : EItem) (hc : st.seen.contains it.kind = true) :
+    collectEStep st it = .error (.dup it.kind) := by unfold collectEStep; rw [if_pos hc]
+
+theorem collectEStep_neg (st : ECollectState) (it : EItem) (hc : ¬ st.seen.contains it.kind = true) :
+    collectEStep st it = .ok { applyEItem st it with seen := it.kind :: st.seen } := by unfold collectEStep; rw [if_neg hc]
+
+theorem foldl_applyEItem_seen : ∀ (l : List EItem) (a : ECollectState) (sn : List EKind),
+    l.foldl applyEItem { a with seen := sn } = { l.foldl applyEItem a with seen := sn }
+  | [], _, _ => rfl
+  | x :: xs, a, sn => by
+    have : applyEItem { a with seen := sn } x = { applyEItem a x with seen := sn } := by cases x <;> rfl
+    simp only [List.foldl_cons]
+    rw [this, foldl_applyEItem_seen xs]
+
+theorem collectEItems_ok (st st' : ECollectState) (its : List EItem) (h : collectEItems st its = .ok st') :
+    st' = { its.foldl applyEItem st with seen := (ekindsOf its).reverse ++ st.seen } := by
+  induction its generalizing st with
+  | nil => simp only [collectEItems, Except.ok.injEq] at h; subst h; simp [ekindsOf]
+  | cons it its ih =>
+    by_cases hc : st.seen.contains it.kind = true
+    · simp only [collectEItems, collectEStep_pos st it hc] at h
+      exact absurd h (by simp)
+    · simp only [collectEItems, collectEStep_neg st it hc] at h
+      rw [ih _ h, List.foldl_cons, foldl_applyEItem_seen]
+      simp [ekindsOf]
+
+theorem collectEItems_error_iff (st : ECollectState) (its : List EItem) (hs : st.seen.Nodup) :
+    (∃ e, collectEItems st its = .error e) ↔ ¬ ((ekindsOf its).reverse ++ st.seen).Nodup := by
+  induction its generalizing st with
+  | nil => simp [collectEItems, ekindsOf, hs]
+  | cons it its ih =>
+    have hl : (ekindsOf (it :: its)).reverse ++ st.seen = (ekindsOf its).reverse ++ (it.kind :: st.seen) := by
+      simp [ekindsOf]
+    rw [hl]
+    by_cases hc : st.seen.contains it.kind = true
+    · simp only [collectEItems, collectEStep_pos st it hc]
+      have hm : it.kind ∈ st.seen := List.contains_iff_mem.mp hc
+      constructor
+      · intro _ hn
+        exact (List.nodup_cons.mp (List.nodup_append.mp hn).2.1).1 hm
+      · intro _; exact ⟨_, rfl⟩
+    · simp only [collectEItems, collectEStep_neg st it hc]
+      have hnm : it.kind ∉ st.seen := fun hm => hc (List.contains_iff_mem.mpr hm)
+      have hs' : ({ applyEItem st it with seen := it.kind :: st.seen } : ECollectState).seen.Nodup :=
+        List.nodup_cons.mpr ⟨hnm, hs⟩
+      rw [ih _ hs']
+
+def baseEnum (r : RawEnum) (variants : List Variant) : ECollectState :=
+  { d := { name := r.name, reprAttrs := r.reprAttrs, discName := r.discName, discVis := r.discVis, variants := variants } }
+
+theorem collectEnum_eq (r : RawEnum) (vs : List Variant) :
+    collectEnum r vs = (if r.attrs.flatten.all styleOk = true then
+      (match collectEItems (baseEnum r vs) r.attrs.flatten with
+       | .error e => .error e
+       | .ok st => .ok { st.d with customErr := st.hasTy && st.hasFn })
+      else .error .badStyle) := by
+  unfold collectEnum baseEnum
+  by_cases h : r.attrs.flatten.all styleOk = true
+  · rw [if_pos h]; simp only [h, Bool.not_true, Bool.false_eq_true, ↓reduceIte]; rfl
+  · rw [if_neg h]
+    have : r.attrs.flatten.all styleOk = false := by simpa using h
+    simp only [this, Bool.not_false, ↓reduceIte]
+
+theorem collectEItems_nodup_iff (r : RawEnum) (vs : List Variant) :
+    (∃ e, collectEItems (baseEnum r vs) r.attrs.flatten = .error e) ↔ ¬ (ekindsOf r.attrs.flatten).Nodup := by
+  have h := collectEItems_error_iff (baseEnum r vs) r.attrs.flatten List.nodup_nil
+  simp only [baseEnum, List.append_nil] at h
+  rw [(List.reverse_perm _).nodup_iff] at h
+  exact h
+
+/-- **`get_type_properties` fails iff a style string is unknown or an item is written twice** (every enum-level item is
+    single-use) -/
+theorem collectEnum_error_iff (r : RawEnum) (vs : List Variant) :
+    (∃ e, collectEnum r vs = .error e) ↔ (r.attrs.flatten.all styleOk = false ∨ ¬ (ekindsOf r.attrs.flatten).Nodup) := by
+  rw [collectEnum_eq]
+  by_cases hsty : r.attrs.flatten.all styleOk = true
+  · rw [if_pos hsty, ← collectEItems_nodup_iff r vs]
+    constructor
+    · rintro ⟨e, he⟩
+      right
+      cases hc : collectEItems (baseEnum r vs) r.attrs.flatten with
+      | error e' => exact ⟨e', rfl⟩
+      | ok st => rw [hc] at he; simp at he
+    · rintro (h | ⟨e, he⟩)
+      · rw [hsty] at h; exact absurd h (by simp)
+      · exact ⟨e, by rw [he]⟩
+  · rw [if_neg hsty]
+    have : r.attrs.flatten.all styleOk = false := by simpa using hsty
+    exact ⟨fun _ => .inl this, fun _ => ⟨_, rfl⟩⟩
+
+theorem applyEItem_comm (st : ECollectState) (a b : EItem) (h : a.kind ≠ b.kind) :
+    applyEItem (applyEItem st a) b = applyEItem (applyEItem st b) a := by
+  cases a <;> cases b <;> simp_all [EItem.kind, applyEItem]
+
+theorem ekind_inj_of_nodup : ∀ (l : List EItem), (ekindsOf l).Nodup → ∀ x ∈ l, ∀ y ∈ l, x.kind = y.kind → x = y
+  | [], _, _, hx, _, _, _ => by simp at hx
+  | a :: l, hn, x, hx, y, hy, hk => by
+    have hn0 : (a.kind :: ekindsOf l).Nodup := hn
+    obtain ⟨hnot, hn'⟩ := List.nodup_cons.mp hn0
+    have memk : ∀ z ∈ l, z.kind = a.kind → False := fun z hz hzk => hnot (List.mem_map.mpr ⟨z, hz, hzk⟩)
+    rcases List.mem_cons.mp hx with rfl | hx'
+    · rcases List.mem_cons.mp hy with rfl | hy'
+      · rfl
+      · exact absurd hk.symm (fun h => memk y hy' h)
+    · rcases List.mem_cons.mp hy with rfl | hy'
+      · exact absurd hk (fun h => memk x hx' h)
+      · exact ekind_inj_of_nodup l hn' x hx' y hy' hk
+
+/-- **On the enum every item is single-use, so neither the grouping into `#[strum(..)]` lists nor the ORDER of the items
+    matters at all**: permuted item sequences collect to the same enum properties (or both fail). -/
+theorem collectEnum_perm (r r' : RawEnum) (vs : List Variant) (hn : r.name = r'.name) (hr : r.reprAttrs = r'.reprAttrs)
+    (hdn : r.discName = r'.discName) (hdv : r.discVis = r'.discVis) (hp : r.attrs.flatten.Perm r'.attrs.flatten) :
+    (collectEnum r vs).toOption = (collectEnum r' vs).toOption := by
+  have hsty : r.attrs.flatten.all styleOk = r'.attrs.flatten.all styleOk := by
+    rw [Bool.eq_iff_iff]
+    simp only [List.all_eq_true]
+    exact ⟨fun h x hx => h x (hp.symm.subset hx), fun h x hx => h x (hp.subset hx)⟩
+  have hkp : (ekindsOf r.attrs.flatten).Perm (ekindsOf r'.attrs.flatten) := hp.map _
+  by_cases hok : r.attrs.flatten.all styleOk = true ∧ (ekindsOf r.attrs.flatten).Nodup
+  · obtain ⟨h1, h2⟩ := hok
+    have h1' : r'.attrs.flatten.all styleOk = true := hsty ▸ h1
+    have h2' : (ekindsOf r'.attrs.flatten).Nodup := hkp.nodup_iff.mp h2
+    have ok1 : ∃ st, collectEItems (baseEnum r vs) r.attrs.flatten = .ok st := by
+      cases hc : collectEItems (baseEnum r vs) r.attrs.flatten with
+      | ok st => exact ⟨st, rfl⟩
+      | error e =>
+        exact absurd h2 ((collectEItems_nodup_iff r vs).mp ⟨e, hc⟩)
+    have ok2 : ∃ st, collectEItems (baseEnum r' vs) r'.attrs.flatten = .ok st := by
+      cases hc : collectEItems (baseEnum r' vs) r'.attrs.flatten with
+      | ok st => exact ⟨st, rfl⟩
+      | error e =>
+        exact absurd h2' ((collectEItems_nodup_iff r' vs).mp ⟨e, hc⟩)
+    obtain ⟨st1, hs1⟩ := ok1
+    obtain ⟨st2, hs2⟩ := ok2
+    have e1 := collectEItems_ok _ _ _ hs1
+    have e2 := collectEItems_ok _ _ _ hs2
+    have hb : baseEnum r vs = baseEnum r' vs := by simp [baseEnum, hn, hr, hdn, hdv]
+    have hfold : r.attrs.flatten.foldl applyEItem (baseEnum r vs) = r'.attrs.flatten.foldl applyEItem (baseEnum r' vs) := by
+      rw [hb]
+      apply List.Perm.foldl_eq' hp
+      intro x hx y hy z
+      by_cases hxy : x = y
+      · rw [hxy]
+      · exact applyEItem_comm z x y (fun hk => hxy (ekind_inj_of_nodup _ h2 x hx y hy hk))
+    rw [collectEnum_eq, collectEnum_eq, if_pos h1, if_pos h1', hs1, hs2]
+    simp only [Except.toOption]
+    rw [e1, e2, hfold]
+  · have hbad : r.attrs.flatten.all styleOk = false ∨ ¬ (ekindsOf r.attrs.flatten).Nodup := by
+      by_cases h1 : r.attrs.flatten.all styleOk = true
+      · right; intro h2; exact hok ⟨h1, h2⟩
+      · left; simpa using h1
+    have hbad' : r'.attrs.flatten.all styleOk = false ∨ ¬ (ekindsOf r'.attrs.flatten).Nodup := by
+      rcases hbad with h | h
+      · left; rw [← hsty]; exact h
+      · right; intro h2; exact h (hkp.nodup_iff.mpr h2)
+    obtain ⟨e, he⟩ := (collectEnum_error_iff r vs).mpr hbad
+    obtain ⟨e', he'⟩ := (collectEnum_error_iff r' vs).mpr hbad'
+    rw [he, he']; rfl
+
+example : collectEnum { name := [69], attrs := [[.ci], [.pfx [112], .serializeAll "snake_case"], [.parseErrFn, .parseErrTy]] } []
+    = .ok { name := [69], ci := true, pfx := some [112], style := some .snake, customErr := true } := by rfl
+example : collectEnum { name := [69], attrs := [[.serializeAll "snake"]] } [] = .error .badStyle := by rfl
+example : collectEnum { name := [69], attrs := [[.ci], [.usePhf, .ci]] } [] = .error (.dup .ci) := by rfl
+
 /-! ### non-vacuity -/
 example : collectVariant { ident := [65], attrs := [[.serialize [97], .disabled], [.props [([107], .int 1)]], [.message [109]], [.props [([108], .bool true)]]] }
     = .ok { ident := [65], serialize := [[97]], disabled := true, message := some [109], props := [([107], .int 1), ([108], .bool true)] } := by rfl
